@@ -317,6 +317,12 @@ def check_float_forms(idx: Index, rep: Report) -> None:
                 closure += unparse(f.cls.method(nm).node)  # type: ignore[union-attr]
         bitcast = any(k in closure for k in ("to_bytes(", "iter_unpack(", ".unpack(", "convert_u32_to_f32", "convert_u64_to_f64", "struct.unpack"))
         inst = f"{f.fq}:hex"
+        # the number of bytes of the pattern is the packed size of the type (ceil(bitwidth / 8)), never a floor
+        for c_ in calls_in(f.node):
+            if call_attr(c_) == "to_bytes" and c_.args:
+                szt = unparse(c_.args[0])
+                if re.search(r"bitwidth\)? *// *8|bitwidth\)? *>> *3", szt) and not re.search(r"\+ *7", szt):
+                    r.fail(inst + ":size", Finding("C06.R3", f.fq, f"byte-size-floor:{szt}", f"`{unparse(c_)[:70]}` sizes the bit pattern with `{szt}`, the bitwidth divided by 8 rounded DOWN: for a type whose width is not a multiple of 8 (tf32: 19 bits, printed as 3 bytes) the printed pattern does not fit and the literal the printer emitted is rejected", f"{f.module.relpath}:{c_.lineno}"))
         if bitcast:
             r.ok(inst, f"{f.loc} {what}: 0x… literal bit-cast to the element type")
         else:
@@ -663,6 +669,40 @@ def check_hex_blob(idx: Index, rep: Report) -> None:
             raise AnalysisError(f"{f.fq}: `{txt}`: how the 0x prefix is removed was not recognised")
 
 
+def check_dense_nesting(idx: Index, rep: Report) -> None:
+    """The printer turns the flat value array into nested lists: at a level with dimensions (d0, d1, ..., dn) the array
+    is cut into d0 blocks of d1*...*dn values each."""
+    r = rep.rule("C06.R13", "nested printing of dense elements cuts the flat array into blocks of prod(shape[1:]) values (= len(array) // shape[0]) at every level", floor=1)
+    f = idx.func("xdsl/dialects/builtin.py", "DenseIntOrFPElementsAttr._print_dense_list")
+    arr, shp = f.node.args.args[1].arg, f.node.args.args[2].arg
+    steps = []
+    for c in calls_in(f.node, local=False):
+        if unparse(c.func) == "range" and len(c.args) == 3:
+            steps.append((c, c.args[2]))
+    for n_ in ast.walk(f.node):
+        if isinstance(n_, ast.Subscript) and isinstance(n_.slice, ast.Slice) and n_.slice.lower is not None and n_.slice.upper is not None and isinstance(n_.slice.upper, ast.BinOp) and isinstance(n_.slice.upper.op, ast.Add) and unparse(n_.slice.upper.left) == unparse(n_.slice.lower):
+            steps.append((n_, n_.slice.upper.right))
+    if not steps:
+        raise AnalysisError(f"{f.fq}: block size of the nested printing not found")
+    from ..astutil import guard_facts as _gf13
+
+    steps = [(site, st) for site, st in steps if any(p_ and unparse(t_) == f"len({shp}) > 1" for t_, p_ in _gf13(f.node, site))] or steps
+    OK = {f"len({arr}) // {shp}[0]", f"prod({shp}[1:])", f"math.prod({shp}[1:])"}
+    for site, st in steps:
+        txt = unparse(st)
+        if isinstance(st, ast.Name):
+            ds = {unparse(v_) for n2 in ast.walk(f.node) if isinstance(n2, ast.Assign) and len(n2.targets) == 1 and unparse(n2.targets[0]) == st.id for v_ in [n2.value]}
+            if len(ds) == 1:
+                txt = next(iter(ds))
+        inst = f"{f.fq}:{unparse(site)[:40]}"
+        if txt in OK:
+            r.ok(inst, f"{f.loc} block size `{txt}`")
+        elif re.fullmatch(rf"{shp}\[-?\d+\]", txt):
+            r.fail(inst, Finding("C06.R13", f.fq, f"block-size:{txt}", f"the flat array is cut into blocks of `{txt}` values - one dimension - while the recursion continues with `{shp}[1:]`: for rank >= 3 the blocks of the outer level must hold prod({shp}[1:]) values, so later blocks start at the wrong offset and the printed literal (of the right shape) parses back to other elements", f.loc))
+        else:
+            raise AnalysisError(f"{f.fq}: block size `{txt}` of the nested printing not understood")
+
+
 def check(idx: Index, rep: Report, tier: str) -> str:
     forms = check_bytes(idx, rep)
     rep.run(check_misc, idx, rep)
@@ -674,6 +714,7 @@ def check(idx: Index, rep: Report, tier: str) -> str:
     rep.run(check_packed, idx, rep)
     rep.run(check_locations, idx, rep)
     rep.run(check_hex_blob, idx, rep)
+    rep.run(check_dense_nesting, idx, rep)
     return (
         "Finite-partition evaluation of the byte escaper over all 256 bytes against the lexer's string regex and decoder "
         "table; guard-exclusion analysis of raw string emission; regular-language inclusion of Python's float format "
